@@ -310,6 +310,9 @@ func C06(r *core.Run) {
 		Bound    int
 	}
 	spec := in{dir, r.Pick(2, 3), r.Thorough(), r.Pick(1, 2)}
+	if r.Degraded() {
+		spec = in{dir, 1, false, 1}
+	}
 	outs, deaths := core.Parallel(r, "sweep", spec, r.Workers, func(in in, shard, n int, emit func(c06Out)) {
 		wd := filepath.Join(in.Dir, fmt.Sprint("w", shard))
 		c01Tree().Materialise(wd)
